@@ -3,15 +3,24 @@
 // UNBOUNDED: sequences of arbitrary length, arbitrary input bytes.
 //
 // Files: dec.rs (decoders: spec step functions + the real read_X proved total and equal to them; DecoderV2 read_usize/read_buf/ds),
+//        v2new.rs (DecoderV2::new + StringDecoder::new: the nine-section column layout, total + framing; layout round trip),
 //        enc.rs (encoders: abstract state, invariant, the real write_X/flush/to_vec proved equal to the spec steps; EncoderV2 ds),
 //        rt_id.rs / rt_uo.rs / rt_rl.rs (the inductive round-trip theorems), examples.rs (concrete columns).
 //
 // Slicing / rewrites (all logged in the evidence):
 //   * ReadExt / WriteExt split, `Some(&b)` desugaring, pub fields of Signed, AsRef -> VxBytes: see units/lib0/unit.rs
 //   * MS  `to_vec(mut self)`: Verus rejects a `mut self` receiver; desugared to `self` + `let mut vx_self = self;` [3 per-extract SUBs x2]
-//   * `DecoderV2` / `EncoderV2` are sliced to the fields the verified functions touch (cursor + ds_curr_val / buf + ds_curr_val);
+//   * `DecoderV2` and `StringDecoder` are the REAL structs (all fields, extracted); `EncoderV2` is sliced to the fields the verified
+//     functions touch (buf + ds_curr_val + string_encoder);
 //     read_ds_clock / read_ds_len / write_ds_clock / write_ds_len are pulled from the `impl Decoder for DecoderV2` /
-//     `impl Encoder for EncoderV2` blocks into inherent impls of the sliced structs
+//     `impl Encoder for EncoderV2` blocks into inherent impls
+//   * UTF8 `std::str::from_utf8(str_bin)` in StringDecoder::new -> `vx_from_utf8(str_bin)` [per-extract SUB]: TRUSTED std stand-in
+//     (v2new.rs; the same specification as A9 of units tags / sticky / dec_comp: Ok(s), s@ == from_utf8(b), IFF valid_utf8(b); both
+//     uninterpreted, no axioms; opaque Utf8ErrorStandIn); the discarding closure `|_|` is annotated as `|_e: Utf8ErrorStandIn| ->
+//     (vx_e: Error)` with `ensures vx_e is UnexpectedValue` (@closure; the closure body is verified against it)
+//   * `StringDecoder::read_str` stays a trusted stand-in without a functional contract (str slicing / `chars()` not ingestible);
+//     `StringEncoder` stays opaque (enc.rs)
+//   * `use std::sync::Arc;` for the `keys: Vec<Arc<str>>` field of DecoderV2 (vstd's Arc; the field is only constructed, `Vec::new()`)
 //   * R9  `debug_assert!(len != 0)` in write_ds_len becomes a proof obligation (discharged by the stated precondition)
 // Encoder DOMAIN restrictions (stated as `requires` of the encoders / as the *_dom predicates of the theorems): see enc.rs, rt_*.rs
 #![allow(unused_imports, unused_variables, unused_mut, dead_code, unused_parens, unused_braces, unused_assignments)]
